@@ -146,6 +146,11 @@ func (in *Interp) vsymCall(name string, args []Value, c *ssa.CallCommon) []Value
 		et := cbufElem(name, in)
 		o := in.newObject(et, n, "cbuf:"+strArg(args[0]))
 		o.kind = "cbuf"
+		o.cwidth = 8
+		switch name {
+		case "CBufFloat32", "CBufInt32", "CBufUint32", "CBufInt", "CBufUint":
+			o.cwidth = 4 // genny maps Go int/uint to the 32-bit C.int/C.uint
+		}
 		s := in.sortMust(et)
 		for i := 0; i < n; i++ {
 			v := in.newSym(fmt.Sprintf("%s[%d]", strArg(args[0]), i), s)
